@@ -498,6 +498,7 @@ func main() {
 	})
 	htpasswdSites(rep, base, auth)
 	htpasswdEntries(rep, base, auth)
+	replacedInternalDirectory(rep, base)
 	rep.Finish()
 }
 
@@ -516,6 +517,10 @@ func htpasswdSites(rep *kit.Report, base string, auth func(u, p string) string) 
 		st.tok = kit.Token("hp-" + n)
 		kit.WriteFile(st.root, "secret/s.txt", st.tok)
 		kit.WriteFile(st.root, "pw", "u:"+sha(st.pw)+"\n")
+		// (the two files have the same name relative to their roots, the same size and the same modification time, as files
+		// laid down by one deployment do)
+		stamp := time.Date(2024, 1, 2, 3, 4, 5, 0, time.UTC)
+		os.Chtimes(filepath.Join(st.root, "pw"), stamp, stamp)
 		sites = append(sites, st)
 	}
 	block := func(st site, abs bool) string {
@@ -641,4 +646,54 @@ func htpasswdEntries(rep *kit.Report, base string, auth func(u, p string) string
 	}
 	l.Close()
 	rep.Class("htpasswd-entries/file-replaced-between-loads")
+}
+
+// replacedInternalDirectory: an internal directory is replaced by a new one of the same name while the site runs (a deployment
+// that renames directories into place). Listings and archives of its parent keep leaving it out, before and after.
+func replacedInternalDirectory(rep *kit.Report, base string) {
+	root := filepath.Join(base, "vault-site")
+	tok1, tok2 := kit.Token("vault-1"), kit.Token("vault-2")
+	kit.WriteFile(root, "vault/keys.txt", tok1)
+	kit.WriteFile(root, "pub/p.txt", "public")
+	cf := fmt.Sprintf("a.test:8080 {\n\troot %s\n\tinternal /vault\n\tbrowse / {\n\t\tservearchive zip\n\t}\n}\n", root)
+	l, err := kit.Load(cf, filepath.Join(base, "Casketfile-vault"))
+	if err != nil {
+		rep.Broken("replaced internal directory: %v", err)
+	}
+	defer l.Close()
+	look := func(when string, toks ...string) {
+		for _, tgt := range []string{"/?archive=zip", "/", "/vault/keys.txt", "/vault/", "/vault/?archive=zip"} {
+			for _, accept := range []string{"", "Accept: application/json"} {
+				var hdr []string
+				if accept != "" {
+					hdr = append(hdr, accept)
+				}
+				raw := kit.Get("GET", tgt, "a.test:8080", hdr...)
+				rec, pv, _ := kit.Serve(l.Server(""), raw)
+				rep.Eval(1)
+				if pv != nil {
+					rep.Violation("C03/panic", fmt.Sprint(pv), c03case{cf, raw, 0, nil, ""})
+					continue
+				}
+				text := rec.Body.String()
+				if m, ok := kit.Unarchive(rec.Body.Bytes()); ok {
+					text = ""
+					for name, content := range m {
+						text += name + "\n" + content + "\n"
+					}
+				}
+				for _, tok := range toks {
+					if strings.Contains(text, tok) || (strings.Contains(tgt, "archive") && strings.Contains(text, "vault/keys.txt")) {
+						rep.Violation("C03/disclosure/internal-directory-replaced-while-running", fmt.Sprintf("%s: GET %s returned content (or the name) of a file under the internal directory", when, tgt), c03case{cf, raw, rec.Status, []string{"/vault/keys.txt"}, when})
+						break
+					}
+				}
+			}
+		}
+		rep.Class("internal-directory/" + when)
+	}
+	look("before the directory is replaced", tok1)
+	os.Rename(filepath.Join(root, "vault"), filepath.Join(base, "vault-old"))
+	kit.WriteFile(root, "vault/keys.txt", tok2)
+	look("after the directory was replaced by a new one", tok1, tok2)
 }
